@@ -261,12 +261,13 @@ def main():
 
     # ------------------------------------------------------------------ inputs
     n_long = 4 if thorough else 3
-    n_short = n_long  # every unary helper sees the same enumeration depth for "short" ops
     LONG = strings_upto(ALPHA, n_long + 1)          # quick: all strings of length <= 4 (69 905); thorough: <= 5 (1.1 M)
-    SHORT = strings_upto(ALPHA, n_short)            # quick: length <= 3 (4 369); thorough: <= 4
+    SMALL = strings_upto(ALPHA, n_long)             # quick: length <= 3 (4 369); thorough: <= 4
+    SHORT = LONG if not thorough else SMALL         # the cheap unary helpers: quick <= 4, thorough <= 4
     c.cov["exhaustive_parts"] = [
         "all strings of length <= %d over the 16-byte alphabet %s through ReadLine, TrimDBCS, StripNoneBig5, StripAnsi (3 modes), DBCSSafeTrim, StripANSIMoveCmd" % (n_long + 1, ALPHA),
-        "all strings of length <= %d over the same alphabet through the other unary helpers (DBCSStatus at every position -1..len)" % n_short,
+        "all strings of length <= 4 over the same alphabet through Cstrlen, CstrToBytes, CstrTolower/Toupper, StringHash(WithHashBits), StripBlank, Trim",
+        "all strings of length <= %d through DBCSStatus at every position -1..len+1, and through SubjectEx" % n_long,
         "all 256 byte values through the ctype helpers, x every previous status through DBCSNextStatus",
         "all pairs of strings of length <= 3 over %s through the 6 binary helpers" % (PAIR_ALPHA_T if thorough else PAIR_ALPHA_Q)]
 
@@ -459,7 +460,7 @@ def main():
            (7, lambda s, h, n: ref_fnv1a(cprefix(s), h, FNV64_PRIME, M64, upper), M64),
            (8, lambda s, h, n: ref_fnv1a_dbcs(cprefix(s), h, FNV64_PRIME, M64), M64),
            (9, lambda s, h, n: ref_fnv1(list(s)[:n] if n > 0 else list(s), h, FNV64_PRIME, M64), M64)]
-    hs = SHORT[:1200] + RAND[:800]
+    hs = SMALL[:1200] + RAND[:800]
     for kind, ref, mask in fam:
         cs = []
         for s in hs:
@@ -477,7 +478,7 @@ def main():
         if not bad_status("cmsys.fnv1aByte", ln, r, "fnv-crash"):
             expect("cmsys.fnv1aByte", "fnv-ref", ln, r, [0, ((h ^ b) * FNV32_PRIME) & M32])
     # DBCSStatus at every position
-    cs = [(s, p) for s in SHORT for p in range(-1, len(s) + 2)] + [(s, rng.randrange(-2, len(s) + 3)) for s in RAND]
+    cs = [(s, p) for s in SMALL for p in range(-1, len(s) + 2)] + [(s, rng.randrange(-2, len(s) + 3)) for s in RAND]
     lines = ["16|%s|%d" % (toks(s), p) for s, p in cs]
     for (s, p), ln, r in zip(cs, lines, both(lines, "DBCSStatus")):
         if bad_status("cmsys.DBCSStatus", ln, r, "dbcsstatus-empty" if len(s) == 0 else "dbcsstatus-crash"):
@@ -493,7 +494,7 @@ def main():
              [b"".join(t) for k in range(0, 3) for t in itertools.product(pieces, repeat=k)]
     for _ in range(40000 if thorough else 6000):
         titles.append(b"".join(rng.choice(pieces) for _ in range(rng.randrange(1, 30))))
-    titles += [bytes(s) for s in SHORT] + [bytes(s) for s in RAND[:1000]]
+    titles += [bytes(s) for s in SMALL] + [bytes(s) for s in RAND[:1000]]
     lines = ["18|" + toks(t) for t in titles]
     for t, ln, r in zip(titles, lines, both(lines, "SubjectEx")):
         if bad_status("cmbbs.SubjectEx", ln, r, "subjectex-crash"):
